@@ -283,6 +283,46 @@ func cat(ps ...[]Pkt) Tick {
 	return t
 }
 
+// longBurst: one frame per packet, few channels; group 0 loses `burst` consecutive packets (a link
+// outage); with two groups the other one loses most of the same stretch too, but never more than
+// `chunk` packets in a row, so that its gaps are ordinary ones.  kind 0: single group; 1: two groups,
+// the burst inside one tick; 2: two groups, the packet after the burst arrives a tick later than the
+// other group's.
+func longBurst(r *lib.Rng, burst int64, kind int) Case {
+	n0 := r.Range(1, 2)
+	base := int64(r.Pick([]int{1, 10, 1000, 100000}))
+	c := Case{Fpp: 1, Note: fmt.Sprintf("long burst %d kind %d", burst, kind)}
+	c.Groups = []GroupCfg{{Off: 0, Nchan: n0, Sample: [][2]int64{{base, 1}, {base + 1, 1}}}}
+	if kind > 0 {
+		c.Groups = append(c.Groups, GroupCfg{Off: n0 + 1, Nchan: 3 - n0, Prod: r.Intn(2), Sample: [][2]int64{{base, 1}, {base + 1, 1}}})
+	}
+	pk := func(g int, sn int64) Pkt {
+		return Pkt{G: g, SN: sn, D: payload(r, 1, c.Groups[g].Nchan, false)}
+	}
+	first := base + 2
+	after := first + 2 + burst // first packet after the burst
+	t0 := Tick{P: []Pkt{pk(0, first), pk(0, first+1)}}
+	t1 := Tick{P: []Pkt{pk(0, after), pk(0, after+1)}}
+	t2 := Tick{P: []Pkt{pk(0, after+2)}}
+	if kind > 0 {
+		t0.P = append(t0.P, pk(1, first), pk(1, first+1))
+		chunk := int64(r.Range(1500, 3900))
+		var mid []Pkt
+		for sn := first + 2 + chunk; sn < after; sn += chunk {
+			mid = append(mid, pk(1, sn))
+		}
+		mid = append(mid, pk(1, after), pk(1, after+1))
+		if kind == 1 {
+			t1.P = append(mid, t1.P...)
+		} else {
+			t0.P = append(t0.P, mid...)
+		}
+		t2.P = append(t2.P, pk(1, after+2))
+	}
+	c.Ops = []Tick{t0, {}, t1, t2}
+	return c
+}
+
 func corpus() []Case {
 	s12 := [][2]int64{{1, 1}, {2, 1}}
 	var out []Case
@@ -363,7 +403,19 @@ func gen(seed uint64, tier string) []interface{} {
 		id++
 		out = append(out, c)
 	}
+	// loss bursts longer than any plausible "give up filling" limit: 2 in quick, more in thorough
+	bursts := [][2]int{{4097 + r.Intn(1500), 0}, {5000 + r.Intn(3000), 1 + r.Intn(2)}}
+	if tier == "thorough" {
+		bursts = append(bursts, [][2]int{{4097, 1}, {70000, 0}, {65536 + r.Intn(100), 2}, {r.Range(5000, 70000), 0},
+			{r.Range(5000, 70000), 1}, {r.Range(5000, 70000), 2}}...)
+	}
 	for i := 0; i < n; i++ {
+		if k := i - n/3; k >= 0 && k < len(bursts) {
+			lb := longBurst(r.Fork(), int64(bursts[k][0]), bursts[k][1])
+			lb.ID = id
+			id++
+			out = append(out, lb)
+		}
 		out = append(out, genCase(r.Fork(), id, tier))
 		id++
 	}
@@ -424,7 +476,7 @@ func inputTerm(c Case) (string, string) {
 }
 
 type spec struct { // what the harness works out about the INPUT, for tags only
-	lost, leftover, leftoverThenGap, misaligned, emptyTick, lag bool
+	lost, leftover, leftoverThenGap, misaligned, emptyTick, lag, longBurst bool
 }
 
 func analyse(c Case) spec {
@@ -459,6 +511,9 @@ func analyse(c Case) spec {
 		for _, p := range t.P {
 			if p.G < 0 || p.G >= n {
 				continue
+			}
+			if p.SN > last[p.G]+4097 {
+				s.longBurst = true
 			}
 			if p.SN > last[p.G]+1 {
 				s.lost = true
@@ -521,6 +576,7 @@ func tagsOf(c Case) ([]string, bool) {
 	add(s.misaligned, "start-misaligned")
 	add(s.emptyTick, "empty-tick")
 	add(s.lag, "group-without-data-in-a-tick")
+	add(s.longBurst, "loss-burst-over-4096-packets")
 	if c.Note != "" {
 		tags = append(tags, "corpus:"+strings.ReplaceAll(c.Note, " ", "-"))
 	}
@@ -634,7 +690,7 @@ func runOnce(c Case) (lib.Result, error) {
 	for _, b := range blocks {
 		var ss []string
 		for _, s := range b.Segs {
-			ss = append(ss, fmt.Sprintf("S %s %s %s", lib.Z(s.First), lib.Z(int64(s.Dropped)), lib.ZListU16(s.Data)))
+			ss = append(ss, fmt.Sprintf("S %s %s %s", lib.Z(s.First), lib.Z(int64(s.Dropped)), rleTerm(s.Data)))
 		}
 		ns := int64(b.NSamp)
 		if b.Err != "" {
@@ -644,7 +700,97 @@ func runOnce(c Case) (lib.Result, error) {
 	}
 	res.Term = fmt.Sprintf("mk %d %s\n  %s\n  %s", c.Fpp, gterm, tterm, "["+strings.Join(bs, ";\n   ")+"]")
 	res.Impl = blocks
+	if span(c) > 2000 {
+		res.Heavy = true
+		res.Impl = compactImpl(blocks)
+	}
 	return res, nil
+}
+
+// rleTerm renders sample data as a Coq list; constant runs of 24 or more samples (filler for a long
+// burst of lost packets) are written (rep v n), which Run.v expands. Lossless.
+func rleTerm(d []uint16) string {
+	const minRun = 24
+	var parts []string
+	var lit []uint16
+	flush := func() {
+		if len(lit) > 0 {
+			parts = append(parts, lib.ZListU16(lit))
+			lit = nil
+		}
+	}
+	for i := 0; i < len(d); {
+		j := i
+		for j < len(d) && d[j] == d[i] {
+			j++
+		}
+		if j-i >= minRun {
+			flush()
+			parts = append(parts, fmt.Sprintf("rep %d %d", d[i], j-i))
+		} else {
+			lit = append(lit, d[i:j]...)
+		}
+		i = j
+	}
+	flush()
+	if len(parts) == 0 {
+		return "[]"
+	}
+	if len(parts) == 1 && strings.HasPrefix(parts[0], "[") {
+		return parts[0]
+	}
+	return "(" + strings.Join(parts, " ++ ") + ")"
+}
+
+// compactImpl is what the replay file records for a heavy case instead of every sample.
+type compactSeg struct {
+	First   int64
+	Dropped int
+	Len     int
+	Runs    [][2]int // (value, length) of constant runs >= 24 samples
+}
+
+func compactImpl(blocks []dastard.VerifAbacoBlock) interface{} {
+	var out [][]compactSeg
+	for _, b := range blocks {
+		var segs []compactSeg
+		for _, s := range b.Segs {
+			cs := compactSeg{First: s.First, Dropped: s.Dropped, Len: len(s.Data)}
+			for i := 0; i < len(s.Data); {
+				j := i
+				for j < len(s.Data) && s.Data[j] == s.Data[i] {
+					j++
+				}
+				if j-i >= 24 {
+					cs.Runs = append(cs.Runs, [2]int{int(s.Data[i]), j - i})
+				}
+				i = j
+			}
+			segs = append(segs, cs)
+		}
+		out = append(out, segs)
+	}
+	return out
+}
+
+// span is the number of packet slots a case covers in its busiest group (for the Heavy mark).
+func span(c Case) int64 {
+	var m int64
+	for g, gc := range c.Groups {
+		last := gc.Sample[len(gc.Sample)-1][0]
+		hi := last
+		for _, t := range c.Ops {
+			for _, p := range t.P {
+				if p.G == g && p.SN > hi {
+					hi = p.SN
+				}
+			}
+		}
+		if hi-last > m {
+			m = hi - last
+		}
+	}
+	return m
 }
 
 func crash(raw json.RawMessage, stderr string) (lib.Result, error) {
@@ -658,6 +804,7 @@ func crash(raw json.RawMessage, stderr string) (lib.Result, error) {
 	res := lib.Result{ID: c.ID, Hash: hashOf(c)}
 	res.Tags, res.NonTrivial = tagsOf(c)
 	res.Tags = append(res.Tags, "process-panicked")
+	res.Heavy = span(c) > 2000
 	gterm, tterm := inputTerm(c)
 	res.Term = fmt.Sprintf("mkpanic %d %s\n  %s", c.Fpp, gterm, tterm)
 	lines := strings.Split(strings.TrimSpace(stderr), "\n")
